@@ -2948,10 +2948,9 @@ def flatten_command(cmd: T.Iterable[CommandTypes],
         elif isinstance(c, CustomTargetIndex):
             FeatureNew.single_use('CustomTargetIndex for command argument', '0.60', subproject)
             dependencies.append(c.target)
-            c, df, d = flatten_command([File.from_built_file(c.get_subdir(), c.get_filename())], subproject)
-            final_cmd.extend(c)
-            depend_files.extend(df)
-            dependencies.extend(d)
+            # Keep the object: only the backend knows where the output lives
+            # (layout=flat puts it in meson-out/, not in the subdir).
+            final_cmd.append(c)
         elif isinstance(c, list):
             # TODO: is this case even reachable?
             c, df, d = flatten_command(c, subproject)
